@@ -57,8 +57,16 @@ def _old(run, n):
         run.st = saved
     # a value object created while evaluating in the old state (a dict returned by a pure function) is made
     # visible in the current heap as well
-    if isinstance(v, Ref) and v.loc not in saved.heap and v.loc in run.old_state.heap:
-        saved.heap[v.loc] = run.old_state.heap[v.loc]
+    if isinstance(v, Ref) and v.loc in run.old_state.heap:
+        o_old = run.old_state.heap[v.loc]
+        if v.loc not in saved.heap:
+            saved.heap[v.loc] = o_old
+        elif saved.heap[v.loc] is not o_old:
+            # the object has changed since: old(...) denotes its value at entry
+            if isinstance(o_old, SeqO):
+                return SeqV(o_old.skind, o_old.term, True)
+            if isinstance(o_old, (MapO, SymListO, ListO)):
+                return saved.alloc(o_old)
     return v
 
 
@@ -845,3 +853,30 @@ def _as_list(run, v):
     if isinstance(v, Ref) and isinstance(run.deref(v), SymListO):
         return v
     return run.st.alloc(SymListO(z3.IntVal(1), z3.K(Int, box(run, v)), ekind_of(run, v)))
+
+
+# ------------------------------------------------------------------------------------------ facade
+@specfn('fitted')
+def _fitted(run, imp):
+    """the implementor has been through fit(): neighbourhood policies hold a history, linear policies know the width"""
+    o = run.deref(imp)
+    if 'decisions' in o.fields:
+        return BoolV(z3.Not(run.eng.lib.is_same(run, o.fields['decisions'], NONE)))
+    if 'num_features' in o.fields:
+        return BoolV(z3.Not(run.eng.lib.is_same(run, o.fields['num_features'], NONE)))
+    return BoolV(True)
+
+
+@specfn('arm_is_none')
+def _arm_is_none(run, a):
+    return BoolV(F('arm_is_none', Arm, Bool)(a.term))
+
+
+@specfn('arm_is_nan')
+def _arm_is_nan(run, a):
+    return BoolV(F('arm_is_nan', Arm, Bool)(a.term))
+
+
+@specfn('arm_is_inf')
+def _arm_is_inf(run, a):
+    return BoolV(F('arm_is_inf', Arm, Bool)(a.term))
